@@ -196,3 +196,16 @@ Example C18_whitespace_after_blocks_former_refuted :
                            TT_StartSideEffect; TT_Number; TT_EndSideEffect; TT_Whitespace; TT_Number]
                = Some (GN D_List l r)).
 Proof. vm_compute. repeat split; try reflexivity; try discriminate. eexists _, _. reflexivity. Qed.
+
+(* known finding C18-K1 (not repaired, see known_findings.json): after a side-effect block
+   that has no operand before it a plain value is accepted, a parenthesised operand or a
+   prefix operator is rejected as malformed -- parentheses around that operand change
+   acceptance; with an operand before the block both spellings are accepted *)
+Example C18_K1_parens_after_operandless_block_refuted :
+  parse_tree [TT_StartSideEffect; TT_Number; TT_EndSideEffect; TT_Whitespace; TT_Number] <> None /\
+  parse [TT_StartSideEffect; TT_Number; TT_EndSideEffect; TT_Whitespace; TT_StartGroup; TT_Number; TT_EndGroup]
+    = Err E_malformed /\
+  parse [TT_StartSideEffect; TT_Number; TT_EndSideEffect; TT_Whitespace; TT_Opposite; TT_Number] = Err E_malformed /\
+  parse_tree [TT_Number; TT_Whitespace; TT_StartSideEffect; TT_Number; TT_EndSideEffect; TT_Whitespace;
+              TT_StartGroup; TT_Number; TT_EndGroup] <> None.
+Proof. vm_compute. repeat split; try reflexivity; discriminate. Qed.
